@@ -566,6 +566,17 @@ func runC12(r *common.Rand, tier string, o *common.Out, replay string) {
 			o.Count("exhaustive-weight-vector")
 		}
 	}
+	// weights in the thousands next to small ones (a ring of several thousand slots): every window is still exact
+	for _, ws := range [][]int{{4095, 1}, {4096, 1}, {5000, 3, 1}, {2048, 2047, 2}, {1, 6000}} {
+		var srv [][2]string
+		W := 0
+		for i, w := range ws {
+			W += w
+			srv = append(srv, [2]string{names[i], fmt.Sprintf("weight=%d", w)})
+		}
+		c12Run(o, next(), "wrr", []c12op{{update: true, servers: srv}, {selects: r.Intn(W)}, {selects: 2*W + 3}})
+		o.Count("large-weights")
+	}
 	for n := 0; n <= 8; n++ {
 		var srv [][2]string
 		for i := 0; i < n; i++ {
